@@ -1,3 +1,9 @@
+// Harness for C02, part B (E4, fault/input enumeration on the real process):
+// the boundary grid of response bodies is crawled by the real pipeline - real
+// WARC writer - in a child process; at the instant before the finish message
+// of the seed is sent the sizes of the WARC files are recorded; the parent
+// reads every file up to that size with an independent reader and compares
+// with what the origin sent.
 package main
 
 import (
@@ -6,74 +12,340 @@ import (
 	"os"
 	"path/filepath"
 	"sort"
+	"strings"
 
 	"github.com/internetarchive/Zeno/internal/verif/lib/e2e"
-	"github.com/internetarchive/Zeno/internal/verif/lib/e2e/warcread"
+	"github.com/internetarchive/Zeno/internal/verif/vrt/hkit"
 )
+
+const propID = "C02"
+
+// caseSpec is one child run: a seed page with a slice of the grid as assets
+// ("grid"), or a seed whose own response is a grid element ("direct").
+type caseSpec struct {
+	Name  string   `json:"name"`
+	Kind  string   `json:"kind"`
+	Conf  e2e.Conf `json:"conf"`
+	Items []int    `json:"items"` // grid ids
+}
+
+type confDim struct {
+	pool    int
+	onDisk  bool
+	dedupe  bool
+	workers int
+	assets  int
+}
+
+func (d confDim) conf() e2e.Conf {
+	return e2e.Conf{Job: "c02b", Workers: d.workers, MaxConcurrentAssets: d.assets, MaxRetry: maxRetry, WARCPoolSize: d.pool, WARCOnDisk: d.onDisk,
+		DisableLocalDedupe: !d.dedupe, WARCDedupeSize: dedupeSize}
+}
+
+func (d confDim) name() string {
+	m := "ram"
+	if d.onDisk {
+		m = "disk"
+	}
+	return fmt.Sprintf("pool%d-%s-dedupe%v-%dx%d", d.pool, m, d.dedupe, d.workers, d.assets)
+}
+
+func configs(tier string) []confDim {
+	if tier != "thorough" {
+		return []confDim{{1, false, true, 1, 1}}
+	}
+	var out []confDim
+	for _, pool := range []int{1, 2} {
+		for _, disk := range []bool{false, true} {
+			for _, dd := range []bool{true, false} {
+				for _, wa := range [][2]int{{1, 1}, {2, 4}} {
+					out = append(out, confDim{pool, disk, dd, wa[0], wa[1]})
+				}
+			}
+		}
+	}
+	return out
+}
+
+// cases builds the deterministic case list of a tier.
+func cases(tier string, grid []item) []caseSpec {
+	var out []caseSpec
+	shards := 2
+	if tier != "thorough" {
+		shards = 6
+	}
+	for _, d := range configs(tier) {
+		// grid pages: classes (both framings of a payload) stay together so that revisit records occur
+		pages := make([][]int, shards)
+		classIdx := map[string]int{}
+		for _, it := range grid {
+			c := it.class()
+			if _, ok := classIdx[c]; !ok {
+				classIdx[c] = len(classIdx)
+			}
+			p := classIdx[c] % shards
+			pages[p] = append(pages[p], it.ID)
+		}
+		for p, ids := range pages {
+			out = append(out, caseSpec{Name: fmt.Sprintf("grid %s page %d/%d", d.name(), p+1, shards), Kind: "grid", Conf: d.conf(), Items: ids})
+		}
+		// direct seeds: the seed's own response is the grid element, so the finish follows the fetch immediately
+		for _, it := range grid {
+			if it.Kind == "text" || it.Enc == "gzip" && it.Framing == "cl" || it.Enc == "identity" && it.Framing == "chunked" {
+				continue
+			}
+			switch it.Size {
+			case "0", "2049", "msg=dedupe", "2MiB+1":
+			default:
+				continue
+			}
+			if tier != "thorough" && (it.Size == "msg=dedupe" || it.Size == "0" && it.Status != "200") {
+				continue
+			}
+			out = append(out, caseSpec{Name: fmt.Sprintf("direct %s %s", d.name(), it.Path), Kind: "direct", Conf: d.conf(), Items: []int{it.ID}})
+		}
+	}
+	return out
+}
+
+// verdict of one case.
+type verdict struct {
+	Case       string      `json:"case"`
+	Exchanges  int         `json:"exchanges"`
+	Accepted   int         `json:"accepted"`
+	Rejected   int         `json:"rejected"`
+	Revisits   int         `json:"revisits"`
+	Records    int         `json:"records"`
+	Unfetched  int         `json:"unfetched"`
+	Classes    []string    `json:"classes"` // distinct (status, kind, enc, framing, size) seen on the wire
+	WallS      float64     `json:"wall_s"`
+	Violations []violation `json:"violations,omitempty"`
+	Anomaly    string      `json:"anomaly,omitempty"` // the case could not be judged
+	Sample     any         `json:"sample,omitempty"`
+}
+
+type violation struct {
+	Sig    string `json:"sig"`
+	Detail string `json:"detail"`
+	Item   *item  `json:"item,omitempty"`
+}
+
+func rejectedBy(conf e2e.Conf, e e2e.Exchange) bool {
+	ds := conf.WARCDiscardStatus
+	if ds == nil {
+		ds = []int{429}
+	}
+	for _, s := range ds {
+		if s == e.Status {
+			return true
+		}
+	}
+	if e.Status == 403 {
+		for _, kv := range e.Header {
+			if strings.EqualFold(kv[0], "cf-mitigated") && kv[1] == "challenge" {
+				return true
+			}
+		}
+	}
+	return false
+}
+
+func runCase(cs caseSpec, grid []item, keep bool) verdict {
+	v := verdict{Case: cs.Name}
+	o, err := e2e.NewOrigin("127.0.0.2")
+	if err != nil {
+		hkit.EngineError("origin: %v", err)
+	}
+	defer o.Close()
+	byPath := map[string]*item{}
+	expect := 0
+	var paths []string
+	for _, id := range cs.Items {
+		it := grid[id]
+		expect += program(o, it)
+		byPath[it.Path] = &grid[id]
+		byPath[it.Path+"-t"] = &grid[id]
+		paths = append(paths, it.Path)
+	}
+	seed := "/"
+	if cs.Kind == "direct" {
+		seed = paths[0]
+	} else {
+		o.Handle("/", e2e.Resp{Status: 200, Header: [][2]string{{"Content-Type", "text/html; charset=utf-8"}}, Entity: e2e.HTMLPage("grid", paths, nil)})
+		expect++
+	}
+	dir, err := e2e.Scratch("c02b")
+	if err != nil {
+		hkit.EngineError("%v", err)
+	}
+	if !keep {
+		defer os.RemoveAll(dir)
+	}
+	conf := cs.Conf
+	conf.InputSeeds = []string{o.URL(seed)}
+	spec := &e2e.ChildSpec{Dir: dir, Conf: conf, Mode: "drain", ExpectFinished: 1, DeadlineS: 55,
+		Triggers: []e2e.Trigger{{Name: "finish", Match: e2e.PointFinish, N: 0, Do: []string{"sizes:sizes.jsonl"}}}}
+	res, err := e2e.RunChild(spec, e2e.RunHooks{})
+	if err != nil {
+		hkit.EngineError("child: %v", err)
+	}
+	v.WallS = res.WallS
+	log := o.Log()
+	v.Exchanges = len(log)
+	if res.ExitCode != 0 || res.TimedOut || res.Panic != "" || !res.HasEvent("work: drained") {
+		v.Anomaly = fmt.Sprintf("the crawl did not run to its end: exit=%d signal=%s timed_out=%v panic=%q events=%v stderr-tail=%q log-tail=%q", res.ExitCode, res.Signal, res.TimedOut, res.Panic,
+			res.Events, tail(res.Stderr, 1500), tail(e2e.LogTail(dir, conf.Job, 3000), 3000))
+		return v
+	}
+	// the snapshot taken at the instant before the finish message was sent
+	sb, err := os.ReadFile(filepath.Join(dir, "sizes.jsonl"))
+	if err != nil {
+		v.Anomaly = "no snapshot: " + err.Error()
+		return v
+	}
+	lines := strings.Split(strings.TrimSpace(string(sb)), "\n")
+	if len(lines) != 1 {
+		v.Anomaly = fmt.Sprintf("%d finish messages for one seed", len(lines))
+		return v
+	}
+	snap := map[string]int64{}
+	json.Unmarshal([]byte(lines[0]), &snap)
+	evaluate(&v, cs, conf, grid, byPath, log, snap, filepath.Join(dir, "jobs", conf.Job, "warcs"))
+	if v.Exchanges < expect {
+		v.Unfetched = expect - v.Exchanges
+	}
+	return v
+}
+
+func tail(s string, n int) string {
+	if len(s) > n {
+		return s[len(s)-n:]
+	}
+	return s
+}
 
 func main() {
 	if e2e.IsChild() {
 		e2e.ChildMain()
 	}
-	o, err := e2e.NewOrigin("127.0.0.2")
-	if err != nil {
-		panic(err)
+	a := hkit.ParseArgs()
+	grid := fullGrid()
+	if a.Replay != "" {
+		replay(a.Replay, grid)
+		return
 	}
-	defer o.Close()
-	png := append([]byte("\x89PNG\r\n\x1a\n"), make([]byte, 3000)...)
-	o.Handle("/", e2e.Resp{Status: 200, Header: [][2]string{{"Content-Type", "text/html"}}, Entity: e2e.HTMLPage("t", []string{"/a.png", "/b.png", "/c.txt", "/d.txt", "/e.bin", "/f.png", "/missing.gif"}, nil)})
-	o.Handle("/a.png", e2e.Resp{Status: 200, Header: [][2]string{{"Content-Type", "image/png"}}, Entity: png})
-	o.Handle("/b.png", e2e.Resp{Status: 200, Header: [][2]string{{"Content-Type", "image/png"}}, Entity: png, Chunked: true})
-	o.Handle("/d.txt", e2e.Resp{Status: 200, Header: [][2]string{{"Content-Type", "text/plain"}}, Entity: e2e.Gzip(append([]byte("chunked gzip "), make([]byte, 5000)...)), Encoding: "gzip", Chunked: true, ChunkSize: 7})
-	o.Handle("/e.bin", e2e.Resp{Status: 200, Header: [][2]string{{"Content-Type", "application/octet-stream"}}, Entity: nil})
-	o.Handle("/f.png", e2e.Resp{Status: 301, Header: [][2]string{{"Location", "/a2.png"}}, Entity: []byte("moved")})
-	o.Handle("/a2.png", e2e.Resp{Status: 200, Header: [][2]string{{"Content-Type", "image/png"}}, Entity: append(append([]byte{}, png...), 1, 2, 3), Chunked: true})
-	o.Handle("/c.txt", e2e.Resp{Status: 200, Header: [][2]string{{"Content-Type", "text/plain"}}, Entity: e2e.Gzip([]byte("hello hello hello")), Encoding: "gzip"})
-	dir, err := e2e.Scratch("spike")
-	if err != nil {
-		panic(err)
+	cs := cases(a.Tier, grid)
+	if f, ok := a.Extra["only"]; ok {
+		var keep []caseSpec
+		for _, c := range cs {
+			if strings.Contains(c.Name, f) {
+				keep = append(keep, c)
+			}
+		}
+		cs = keep
 	}
-	spec := &e2e.ChildSpec{Dir: dir, Mode: "drain", ExpectFinished: 1, Profile: true,
-		Conf: e2e.Conf{Job: "j", Workers: 1, MaxConcurrentAssets: 1, MaxRetry: 1, InputSeeds: []string{o.URL("/")}},
-		Triggers: []e2e.Trigger{{Name: "snap", Match: e2e.PointFinish, N: 0, Do: []string{"sizes:sizes.jsonl"}}}}
-	res, err := e2e.RunChild(spec, e2e.RunHooks{})
-	if err != nil {
-		panic(err)
-	}
-	fmt.Printf("exit=%d sig=%s wall=%.1f panic=%q\n", res.ExitCode, res.Signal, res.WallS, res.Panic)
-	for _, e := range res.Events {
-		fmt.Println("  ev:", e)
-	}
-	fmt.Println(res.Stderr)
-	for _, e := range o.Log() {
-		fmt.Printf("  origin: %s %d len=%d sha=%s sent=%v wire=%d\n", e.URL, e.Status, e.EntityLen, e.EntitySHA1[:8], e.Sent, e.WireLen)
-	}
-	b, _ := os.ReadFile(filepath.Join(dir, "sizes.jsonl"))
-	fmt.Printf("sizes: %s", b)
-	ms, _ := filepath.Glob(filepath.Join(dir, "jobs/j/warcs/*"))
-	for _, m := range ms {
-		f, err := warcread.ReadFile(m, -1, warcread.Options{})
-		fmt.Println(m, err, "members", len(f.Members), "empty", f.EmptyMembers, "problem", f.Problem, "good", f.GoodUpTo, "size", f.Size)
-		for _, r := range f.Records {
-			fmt.Printf("   %s %s st=%d len=%d sha=%.8s err=%s/%s pd=%s refers=%s\n", r.Type, r.TargetURI, r.Status, r.EntityLen, r.EntitySHA1, r.HTTPErr, r.EntityErr, r.PayloadDigest, r.RefersToURI)
+	res := hkit.Jobs(a, len(cs), func(j int) any { return runCase(cs[j], grid, false) })
+	var (
+		classes                                         = map[string]bool{}
+		exchanges, accepted, rejected, revisits, recs   int
+		unfetched                                       int
+		samples                                         []any
+		seen                                            = map[string]bool{}
+		anomalies                                       []string
+		per                                             []map[string]any
+	)
+	for j, b := range res {
+		var v verdict
+		if err := json.Unmarshal(b, &v); err != nil {
+			hkit.EngineError("%v", err)
+		}
+		if v.Anomaly != "" {
+			// once more, alone: a loaded machine must not turn into a verdict
+			v = runCase(cs[j], grid, false)
+		}
+		if v.Anomaly != "" {
+			anomalies = append(anomalies, v.Case+": "+v.Anomaly)
+			continue
+		}
+		for _, c := range v.Classes {
+			classes[c] = true
+		}
+		exchanges += v.Exchanges
+		accepted += v.Accepted
+		rejected += v.Rejected
+		revisits += v.Revisits
+		recs += v.Records
+		unfetched += v.Unfetched
+		per = append(per, map[string]any{"case": v.Case, "exchanges": v.Exchanges, "accepted": v.Accepted, "rejected": v.Rejected, "revisits": v.Revisits, "unfetched": v.Unfetched, "wall_s": v.WallS})
+		if len(samples) < 4 && v.Sample != nil {
+			samples = append(samples, v.Sample)
+		}
+		for _, vi := range v.Violations {
+			if seen[vi.Sig] {
+				continue
+			}
+			seen[vi.Sig] = true
+			hkit.Report(propID, vi.Sig, map[string]any{"engine": "e2e", "harness": "c02b", "case": cs[j], "violation": vi}, fmt.Sprintf("%s: %s", v.Case, vi.Detail))
 		}
 	}
-	if td := os.Getenv("E2E_TESTDATA"); td != "" {
-		os.MkdirAll(td, 0o755)
-		for _, m := range ms {
-			b, _ := os.ReadFile(m)
-			os.WriteFile(filepath.Join(td, "plain.warc.gz"), b, 0o644)
+	if len(samples) == 0 {
+		samples = append(samples, "no case produced a sample")
+	}
+	hkit.Evidence(propID, a.Tier, "fault_enumeration", map[string]any{
+		"evaluations": exchanges, "distinct_nontrivial": len(classes),
+		"rule":    "one evaluation = one response sent by the origin and judged against the WARC snapshot; distinct = distinct (status, kind, content-encoding, framing, size boundary) classes among them; every one is non-trivial (a full HTTP fetch through the real WARC-writing client)",
+		"samples": samples, "exhaustive": len(anomalies) == 0, "cases": len(cs), "configurations": len(configs(a.Tier)), "grid_items": len(grid),
+		"accepted_responses": accepted, "rejected_responses": rejected, "revisit_records": revisits, "records_read": recs, "responses_never_requested": unfetched,
+		"per_case": per, "anomalies": anomalies,
+		"explanation": "part B: boundary grid (sizes x kinds x encodings x framings x statuses) crawled by the real pipeline in a child process per case; snapshot of the WARC file sizes at the instant before the finisher's send to the source; files read up to the snapshot by an independent reader (harness/lib/e2e/warcread)",
+	}, []string{
+		"goroutine schedules inside a child are whatever the OS gives; they are not enumerated here (part A carries the schedule quantifier)",
+		"the finish instant is the instrumented point before the finisher's send on sourceFinishedCh; files are append-only, so reading them later up to the recorded size shows exactly what was on disk then",
+		"max-retry 1 (retry 0 sleeps 0 s); the grid page is split over several seed pages per configuration, classes sharing a payload stay on one page",
+	}, hkit.Violations())
+	fmt.Printf("C02 %s (part B): %d cases, %d responses judged (%d accepted, %d rejected, %d revisit records), %d distinct classes, %d anomalies\n", a.Tier, len(cs), exchanges, accepted, rejected, revisits, len(classes), len(anomalies))
+	if len(anomalies) > 0 {
+		for _, s := range anomalies {
+			fmt.Fprintln(os.Stderr, "anomaly:", s)
 		}
-		lb, _ := json.MarshalIndent(o.Log(), "", " ")
-		os.WriteFile(filepath.Join(td, "plain.origin.json"), lb, 0o644)
+		if hkit.Violations() == 0 {
+			hkit.EngineError("%d cases could not be judged (the crawl did not run to its end twice)", len(anomalies))
+		}
 	}
-	hits := e2e.ReadHits(filepath.Join(dir, "hits.json"))
-	var ks []string
-	for k := range hits {
-		ks = append(ks, k)
+	hkit.Exit()
+}
+
+func replay(path string, grid []item) {
+	b, err := os.ReadFile(path)
+	if err != nil {
+		hkit.EngineError("%v", err)
 	}
-	sort.Strings(ks)
-	for _, k := range ks {
-		fmt.Printf("%6d %s\n", hits[k], k)
+	var r struct {
+		Case      caseSpec  `json:"case"`
+		Violation violation `json:"violation"`
 	}
+	if err := json.Unmarshal(b, &r); err != nil {
+		hkit.EngineError("%v", err)
+	}
+	v := runCase(r.Case, grid, os.Getenv("VERIF_KEEP") != "")
+	if v.Anomaly != "" {
+		hkit.EngineError("replay could not be judged: %s", v.Anomaly)
+	}
+	sort.Slice(v.Violations, func(i, j int) bool { return v.Violations[i].Sig < v.Violations[j].Sig })
+	hit := false
+	for _, vi := range v.Violations {
+		fmt.Printf("replay: [sig=%s] %s\n", vi.Sig, vi.Detail)
+		if vi.Sig == r.Violation.Sig {
+			hit = true
+		}
+	}
+	if len(v.Violations) == 0 {
+		fmt.Println("replay: no violation")
+		os.Exit(0)
+	}
+	if !hit {
+		fmt.Printf("replay: the recorded signature %s did not recur, others did\n", r.Violation.Sig)
+	}
+	fmt.Printf("VIOLATION property=%s replay=%s\n", propID, path)
+	os.Exit(1)
 }
